@@ -841,7 +841,7 @@ class Hist(Scenario):
         f = rng.choice(self.files)
         ch = rng.choice(["reset-hard", "checkout-path", "restore", "restore-staged", "checkout-f", "stash-drop", "clean", "rm", "mv",
                          "branch-D", "reset-path", "restore-source", "stash-clear", "switch-discard", "checkout-f-away", "switch-discard-away",
-                         "checkout-f-away", "reset-hard-back"])
+                         "checkout-f-away", "reset-hard-back", "checkout-nodd", "checkout-dot", "restore-dot"])
         if ch in ("stash-drop", "stash-clear") and not self.profile.get("stash_discard_with_initial_pending", True) and self.pending_initial_files():
             ch = "reset-hard"   # finding D36: stash push + drop/clear while INITIAL-only claims are pending leaves them behind
         if ch in ("restore", "restore-staged", "restore-source") and not self.profile.get("restore_with_initial_pending", True) and f in self.pending_initial_files():
@@ -854,6 +854,13 @@ class Hist(Scenario):
             self.g("checkout", "--", f)
         elif ch == "restore":
             self.g("restore", "--", f)
+        elif ch == "checkout-nodd":
+            if f in self.tracked() and not f.startswith("-"):
+                self.g("checkout", f)
+        elif ch == "checkout-dot":
+            self.g("checkout", ".")
+        elif ch == "restore-dot":
+            self.g("restore", ".")
         elif ch == "restore-staged":
             self.g("add", "-A"); self.g("restore", "--staged", "--", f); self.g("restore", "--", f)
         elif ch == "restore-source":
